@@ -625,7 +625,8 @@ class PathEnum:
         q.fn.pop(key, None)
         if retnode is not None and retnode is not _UNKNOWN:
             v = self.const_of(retnode, q, rfr)
-            if v is _UNKNOWN and rfr is not fr and isinstance(retnode, ast.Attribute) and getattr(self, 'consteval', None) is not None:
+            if v is _UNKNOWN and isinstance(retnode, ast.Attribute) and getattr(self, 'consteval', None) is not None \
+                    and isinstance(retnode.value, ast.Name) and retnode.value.id not in ('self', 'cls'):
                 # a helper returned a named constant (e.g. an exception code): the caller's `is None` tests on it are decidable
                 v = self.consteval(retnode, rfr)
             if v is not _UNKNOWN and (v is None or isinstance(v, (bool, int, str, bytes, ast.Tuple))):
